@@ -109,6 +109,18 @@ def loadRaw (l : Lnk) (s : Stream) : Res × Option Bytes :=
   | some _ => (.ioErr, none)
   | none => if hashesTo H l s.data then (.ok, some s.data) else (.hashMismatch, none)
 
+/-- outcome of the entry points that also run the reifier -/
+inductive LoadRes where
+  | res (r : Res)
+  | reifyErr
+  deriving DecidableEq, Repr
+
+/-- `LinkSystem.Load`: `Fill` into a fresh builder; the reifier only ever sees a node that `Fill` accepted. -/
+def load (trusted : Bool) (l : Lnk) (s : Stream) (d : DecRun) (reifyOk : Bool := true) : LoadRes :=
+  match fill H trusted l s d with
+  | .ok => if reifyOk then .res .ok else .reifyErr
+  | r => .res r
+
 /-! ## Store over an abstract encoder and writer -/
 
 /-- The encoder's output as the sequence of writes it makes; `encFails` = it returns an error after
